@@ -15,21 +15,24 @@ TRUSTED_GLOBALS = ('__libc_single_threaded',)     # glibc's flag read by libstdc
 
 def jobs(tier, seed):
     lays = [{}] if tier == 'quick' else [{}, {'zeros': 1, 'param_block': 3}, {'order': 'reversed'}]
-    return [{'entry': 'h_c18', 'harness': 'h_c18.cpp', 'name': 'compose', 'cfg': {'order': 0}, 'lay': l} for l in lays]
+    out = [{'entry': 'h_c18', 'harness': 'h_c18.cpp', 'name': 'compose', 'cfg': {'order': 0}, 'lay': l, 'content': {}} for l in lays]
+    # the files loaded by both programs hold more points than labels: the reader invents the missing names
+    out.append({'entry': 'h_c18', 'harness': 'h_c18.cpp', 'name': 'compose-unlabelled-input', 'cfg': {'order': 0}, 'lay': {}, 'content': {'labels': 'fewer', 'fixed_plabels': ['q0']}})
+    return out
 
-def input_files(lay, concrete_seed=None):
+def input_files(lay, concrete_seed=None, content=None):
     out = {}; cons = []
     for tag in ('A', 'B'):
         S = gen.Syms(concrete=concrete_seed is not None, seed=(concrete_seed or 0) + ord(tag))
         S.n = 1000 * ord(tag)
-        c = gen.make_content(S, P=2, C=1, sub=2, F=2, fixed_plabels=['q0', 'q1'], fixed_alabels=['b0'], symbolic_meta=False, units_per_point=True)
+        c = gen.make_content(S, P=2, C=1, sub=2, F=2, **dict(dict(fixed_plabels=['q0', 'q1'], fixed_alabels=['b0'], symbolic_meta=False, units_per_point=True), **(content or {})))
         out['in%s.c3d' % tag] = c3dref.encode_with_data_start(c, c3dref.Layout(**lay)); cons += S.cons
     return out, cons
 
 def run_job(engine, job):
     eng = engine('O1')
     res = new_result(); q0 = eng.sc.queries; t0 = eng.sc.time
-    files, cons = input_files(job['lay'])
+    files, cons = input_files(job['lay'], content=job.get('content'))
     efiles = {k: gen.to_engine_cells(v) for k, v in files.items()}
     runs = {}
     for order in (0, 1, 2, 3):
